@@ -51,12 +51,13 @@ Proof. exact (read_params_none ms_default_num_scales ms_default_scale_factor). Q
    n >= 1: the run succeeds, restores the machine, and executes exactly
      for j = n-1 .. 1 : the steps of pre, then ms          (scale j)
      then             : the steps of pre, then those of post (scale 0),
-   each left then right when a validation step asks for the right map *)
+   each left then right iff THIS pipeline has a validation step (whatever the machine checked or
+   ran before) *)
 Theorem C15_multiscale_runs_n_scales : forall m pre ms post n d,
   clean m -> path_ok Begin (pre ++ ms :: post) = Some d ->
   has_kind Msc pre = false -> is_kind Msc ms = true -> (n >= 1)%nat ->
   let p := pre ++ ms :: post in
-  let rdm := m_rdm m || has_kind Val p in
+  let rdm := has_kind Val p in
   Machine.run run_table m p n = RunOk (mkM Begin [] rdm 0) (spec_trace pre ms post n rdm).
 Proof. intros m pre ms post n d. exact (run_is_spec_trace run_table m pre ms post n d C15_run_table_wf). Qed.
 
